@@ -86,7 +86,7 @@ def effort_violations(spec, obs, sc_idx=0):
             if not (in_p or in_a):
                 vs.append(Violation("alternative_mixed", name, f"booked on {sorted(booked_res)}; primaries {sorted(prim)}, alternatives {sorted(alts)}"))
                 continue
-            if in_a and not in_p and len(booked_res) != 1 and len(t.alt) == 1:
+            if in_a and not in_p and len(booked_res) != 1:
                 vs.append(Violation("alternative_not_exactly_one", name, f"booked on {sorted(booked_res)}"))
         else:
             if not booked_res <= prim:
